@@ -129,6 +129,23 @@ def emptiness(rels, pred, v):
     return False
 
 
+def without_bounds_checks(b, facts, rels):
+    """relations that do not stem from the compiler's index bounds checks: `dst[0] = ..` proves `0 < dst.len()` on the way on, but by
+    panicking otherwise - no evidence for a method that must answer instead of panicking"""
+    from .flow import edge_conditions, normalize_cmp
+    k = "c7_bounds_rels"
+    bad = b._cache.get(k)
+    if bad is None:
+        bad = set()
+        for (s_, d_, c_, v_) in edge_conditions(b, facts):
+            t = b.blocks[s_]["term"]
+            if t["k"] == "assert" and str(t.get("ak", "")).lower().startswith("bound"):
+                r = normalize_cmp(c_, v_)
+                bad.add(tuple(canon(y) if isinstance(y, tuple) else y for y in r))
+        b._cache[k] = bad
+    return [r for r in rels if tuple(canon(y) if isinstance(y, tuple) else y for y in r) not in bad]
+
+
 def is_self(e):
     return peel(e) == P1
 
@@ -382,6 +399,7 @@ def check_vd_vectored(res, facts, b, slices):
     if sorted(set(vals)) != [0, 1, 2]:
         probs.append("return values are %s, expected 0 / 1 / 2" % vals)
     for bi, e, rels in alts:
+        rels = without_bounds_checks(b, facts, rels)
         v = const_of(e)
         def got_slot(which):
             """the path took the `Some` arm of dst.split_first_mut() / dst.first_mut() (which = 0) or of rest.first_mut() (which = 1)"""
@@ -471,6 +489,24 @@ def cursor_semantic(facts, b, kind):
         if P is None or L is None:
             return ["cannot find position() and the slice length in the method"]
         target = val
+        if kind == "has":
+            # has_remaining: false where position >= len, true where position < len
+            from .flow import normalize_cmp
+            n += 1
+            base = rels + [("le", L, ("const", ISIZE_MAX))]
+            for hyp, truth_v, name in ((base + [("le", L, P)], 0, "position >= len"), (base + [("lt", P, L)], 1, "position < len")):
+                st = State(hyp, facts=facts)
+                if st.refuted():
+                    continue
+                if isinstance(val, tuple) and val and val[0] == "const":
+                    if val[1] not in ((1, True) if truth_v else (0, False)):
+                        return ["for %s the answer is %s" % (name, val[1])]
+                    continue
+                want = normalize_cmp(val, ("eq", truth_v))
+                want = tuple(canon(y) if isinstance(y, tuple) else y for y in want)
+                if want[0] not in ("lt", "le", "eq", "ne") or not st.entails(want):
+                    return ["for %s the answer %s is not entailed to be %s" % (name, fmt_expr(val)[:70], bool(truth_v))]
+            continue
         if kind == "chunk":
             e = peel(val)
             if not (callname(e) in ("index", "get_unchecked") and cursor_slice(e[2][0]) and isinstance(e[2][1], tuple) and e[2][1][0] == "agg" and "RangeFrom" in aggname(e[2][1])):
@@ -581,6 +617,7 @@ def check_default_vectored(res, facts):
     if not set(vals) <= {0, 1} or 1 not in vals:
         probs.append("return values %s, expected 0 / 1" % vals)
     for bi, e, rels in alts:
+        rels = without_bounds_checks(b, facts, rels)
         if const_of(e) == 1:
             if not emptiness(rels, lambda y: peel(y) == P2, 0):
                 probs.append("returns 1 although dst may be empty")
